@@ -49,8 +49,8 @@ _fake_n = [0]
 
 
 def _traced(n):
-    if _fake == "const" or (_fake == "const4" and n == 4):  # end-to-end canary only: a broken generator must be noticed by the whole chain
-        v = bytes((0xA5 + i) & 0xFF for i in range(n))           # ("const4": only the 4-byte requests are answered with a constant)
+    if _fake == "const" or (_fake[:5] == "const" and _fake[5:].isdigit() and n == int(_fake[5:])):  # end-to-end canary only: a broken generator must be noticed by the whole chain
+        v = bytes((0x25 + i) & 0x7F for i in range(n)) if _fake == "const16" else bytes((0xA5 + i) & 0xFF for i in range(n))  # ("const4" / "const16": only the requests of that size are answered with a constant)
     elif _fake.startswith("cycle:"):
         period = int(_fake.split(":")[1])
         k = _fake_n[0] % period
@@ -68,6 +68,7 @@ KEYS = job["keys"]
 HAB = job.get("hab", "")
 USER = {k: bytes.fromhex(v) for k, v in job["user"].items()}
 KINDS = {s["kind"] for s in job["steps"] if s["op"] == "Construct"}
+HOWS = {(s["kind"], s["how"]) for s in job["steps"] if s["op"] == "Construct"}
 
 # ---- imports of the SPSDK modules under observation (draws made here are "import" draws)
 if KINDS & {"SB20", "SB21", "SB21KW"}:
@@ -77,6 +78,9 @@ if KINDS & {"SB20", "SB21", "SB21KW"}:
     from spsdk.crypto.certificate import Certificate
     from spsdk.crypto.signature_provider import get_signature_provider
     from spsdk.utils.crypto.cert_blocks import CertBlockV1
+if ("SB21", "cli") in HOWS:  # the command line application itself (imported like every other module under observation: its draws are import draws)
+    from click.testing import CliRunner
+    from spsdk.apps.nxpimage import main as nxpimage_main
 if "MBI" in KINDS:
     from spsdk.image.mbi.mbi import create_mbi_class, get_mbi_class
     from spsdk.crypto.signature_provider import get_signature_provider  # noqa: F811
@@ -202,11 +206,34 @@ def sb_seen(data, kind):
     return [SB_FLAGS[(kind, flags)]]
 
 
-def sb21_config(n, ex, opt):
-    opts = {"flags": 0x8, "buildNumber": 1, "productVersion": "1.0.0", "componentVersion": "1.0.0"}
+T_GIVEN = 1700000000                       # option "ts": the timestamp option of the options block (seconds since 1970)
+T_GIVEN_FILE = (T_GIVEN - 946684800) * 10**6   # ... as the header stores it (microseconds since 2000-01-01)
+
+
+def _sb_cfg_options(ex, opt, versions="1.0.0"):
+    """The options block of an SB2.1 configuration: each of dek / mac / nonce only when the user pins it, zeroPadding / timestamp only
+    when the option combination has them (Fresh!SbCfgOpts)."""
+    if len(opt) != 2 or opt[0] not in ("rndpad", "zeropad") or opt[1] not in ("now", "ts"):
+        raise RuntimeError(f"option combination {opt} of an SB2.1 configuration")
+    opts = {"flags": 0x8, "buildNumber": 1, "productVersion": versions, "componentVersion": versions}
     for f in ("dek", "mac", "nonce"):
         if f in ex:
             opts[f] = USER[f"sb_{f}"].hex()
+    if opt[0] == "zeropad":
+        opts["zeroPadding"] = True
+    if opt[1] == "ts":
+        opts["timestamp"] = T_GIVEN
+    return opts
+
+
+def sb_cfg_seen(data):
+    """What the exported bytes show of zeroPadding / timestamp: header padding all zero or not, time stamp = the given one or not."""
+    (ts,) = struct.unpack_from("<Q", data, 56)
+    return ["rndpad" if any(data[16:20] + data[92:96]) else "zeropad", "ts" if ts == T_GIVEN_FILE else "now"]
+
+
+def sb21_config(n, ex, opt):
+    opts = _sb_cfg_options(ex, opt)
     conf = {
         "options": opts,
         "sections": [{"section_id": 0, "options": {}, "commands": [{"erase": {"address": 0, "length": 0x1000}}, {"reset": {}}]}],
@@ -222,14 +249,59 @@ def sb21_config(n, ex, opt):
     )
 
 
+class SbFile:
+    """An SB2.1 file the command line application wrote: the artefact is the file, there is no object to look at."""
+
+    def __init__(self, data):
+        self.data = data
+
+    def export(self):
+        return self.data
+
+
+def sb21_cli(n, ex, opt):
+    """`nxpimage sb21 export -c file.yaml`: the YAML file names everything (cert-block configuration file, KEK file, signing key, output file);
+    it is read, validated against the schema and built by the application's own code path."""
+    import yaml
+
+    d = os.path.join(job["dir"], "sbcli")
+    os.makedirs(d, exist_ok=True)
+    with open(os.path.join(d, "cert_block.yaml"), "w") as f:
+        yaml.safe_dump(dict({f"rootCertificate{i}File": ROOTS[i] for i in range(4)}, mainRootCertId=0, imageBuildNumber=1), f)
+    out = os.path.join(d, "out.sb2")
+    if os.path.exists(out):
+        os.remove(out)
+    conf = {
+        "family": "rt5xx",
+        "options": dict(_sb_cfg_options(ex, opt, "1.00.00"), secureBinaryVersion="2.1"),
+        "signPrivateKey": PRIV,
+        "certBlock": "cert_block.yaml",
+        "containerOutputFile": "out.sb2",
+        "containerKeyBlobEncryptionKey": os.path.join(KEYS, "SBkek_PUF.txt"),
+        "RKTHOutputPath": "hash.bin",
+        "sections": [{"section_id": 0, "commands": [{"erase": {"address": 0, "length": 0x1000}},
+                                                    {"load": {"address": 0x100, "values": f"{0x1224 + n:#x}, 0x5678"}}]}],
+    }
+    with open(os.path.join(d, "sb21.yaml"), "w") as f:
+        yaml.safe_dump(conf, f)
+    res = CliRunner().invoke(nxpimage_main, ["sb21", "export", "-c", os.path.join(d, "sb21.yaml")])
+    if res.exit_code != 0 or not os.path.exists(out):
+        raise RuntimeError(f"nxpimage sb21 export failed (exit {res.exit_code}): {res.output[-400:]} {res.exception!r}")
+    with open(out, "rb") as f:
+        return SbFile(f.read())
+
+
 def sb_attrs(img, fields):
+    if isinstance(img, SbFile):  # no object: DEK, MAC key and nonce as the file carries them
+        r, ctr = sb_read(img.data, "SB21")
+        return {k: v for k, v in r.items() if k in fields}, ctr
     r = {"dek": img.dek, "mac": img.mac, "nonce": img.header.nonce}
     return {k: v for k, v in r.items() if k in fields}, [img.dek, img.header.nonce]
 
 
 def sb_export(img, kind):
     data = img.export()
-    SEEN[0] = sb_seen(data, kind) if getattr(img, "_c17_ctor", False) else []
+    SEEN[0] = sb_seen(data, kind) if getattr(img, "_c17_ctor", False) else sb_cfg_seen(data) if kind == "SB21" else []
     return sb_read(data, kind)
 
 
@@ -276,9 +348,12 @@ def _kw_program(n):
             (1, [("encrypt", 1, app)])]
 
 
-def _kw_bd_text(n):
+def _kw_bd_text(n, ex=(), opt=("rndpad", "now")):
     blobs = _kw_blobs()
-    out = ["options {\n  flags = 0x8;\n  buildNumber = 0x1;\n  productVersion = \"1.00.00\";\n  componentVersion = \"1.00.00\";\n}\n"]
+    extra = "".join(f"  {f} = \"{USER['sb_' + f].hex()}\";\n" for f in ("dek", "mac", "nonce") if f in ex)   # as in NXP's own command files
+    extra += "  zeroPadding = True;\n" if opt[0] == "zeropad" else ""
+    extra += f"  timestamp = {T_GIVEN};\n" if opt[1] == "ts" else ""
+    out = ["options {\n  flags = 0x8;\n  buildNumber = 0x1;\n  productVersion = \"1.00.00\";\n  componentVersion = \"1.00.00\";\n" + extra + "}\n"]
     for i, (key, ctr) in enumerate(blobs):
         out.append(f"keyblob ({i}) {{\n    (\n        start = {KW_RANGE[i][0]:#010x},\n        end = {KW_RANGE[i][1]:#010x},\n"
                    f"        key = \"{key.hex()}\",\n        counter = \"{ctr.hex()}\"\n    )\n}}\n")
@@ -297,13 +372,10 @@ def _kw_bd_text(n):
     return "".join(out)
 
 
-def _kw_config(n, ex):
+def _kw_config(n, ex, opt):
     """The same command file in the YAML form (the dictionary BootImageV21.load_from_config takes, as for SB21 / config)."""
     blobs = _kw_blobs()
-    opts = {"flags": 0x8, "buildNumber": 1, "productVersion": "1.00.00", "componentVersion": "1.00.00"}
-    for fld in ("dek", "mac", "nonce"):
-        if fld in ex:
-            opts[fld] = USER["sb_" + fld].hex()
+    opts = _sb_cfg_options(ex, opt, "1.00.00")
     sections = []
     for sid, stmts in _kw_program(n):
         cmds = []
@@ -331,10 +403,11 @@ def sb21kw_bd(n, ex, opt):
     """As `nxpimage sb21 export -c file.bd -k .. -s .. -S .. -R ..`: BD text -> BDParser -> load_from_config."""
     path = os.path.join(job["dir"], f"sbkw_{n}.bd")
     with open(path, "w") as f:
-        f.write(_kw_bd_text(n))
+        f.write(_kw_bd_text(n, ex, opt))
     conf = BootImageV21.parse_sb21_config(path, external_files=[])
-    if any(k in conf["options"] for k in ("zeroPadding", "dek", "mac", "nonce")):
-        raise RuntimeError("the command file must leave every secret to SPSDK")
+    want = set(_sb_cfg_options(ex, opt)) - {"flags", "buildNumber", "productVersion", "componentVersion"}
+    if {k for k in conf["options"] if k in ("zeroPadding", "timestamp", "dek", "mac", "nonce")} != want:
+        raise RuntimeError(f"the parsed command file pins {sorted(conf['options'])}, the history says {sorted(want)}")
     return BootImageV21.load_from_config(
         config=conf,
         key_file_path=os.path.join(KEYS, "SBkek_PUF.txt"),
@@ -349,7 +422,7 @@ def sb21kw_bd(n, ex, opt):
 def sb21kw_config(n, ex, opt):
     """The YAML form of the command file (keyblobs + sections with keywrap / encrypt commands) through load_from_config."""
     return BootImageV21.load_from_config(
-        config=_kw_config(n, ex),
+        config=_kw_config(n, ex, opt),
         key_file_path=os.path.join(KEYS, "SBkek_PUF.txt"),
         signing_certificate_file_paths=[ROOTS[0]],
         root_key_certificate_paths=ROOTS,
@@ -361,6 +434,7 @@ def sb21kw_config(n, ex, opt):
 def sbkw_export(img):
     data = img.export()
     f, ctr = sb_read(data, "SB21")           # DEK, MAC key, nonce, header padding as for every SB2.1 file
+    SEEN[0] = sb_cfg_seen(data)
     # the file is walked by the independent boot-ROM executor (section decryption, command decoding); the load commands at the key-blob
     # table addresses carry the wrapped key blobs, which the OTFAD key-blob loader of the hardware model unwraps with the OTFAD KEK
     ev = c04_rom.run(data, KEK, max_payload_log=128)
@@ -389,7 +463,19 @@ def sbkw_export(img):
 MBI_FAMILY = "mimxrt595s"
 
 
-def _mbi_cfg(n, ex):
+def _mbi_cfg(n, ex, opt=("hwk0", "hex")):
+    """opt (Fresh!MbiCfgOpts): enableHwUserModeKeys off / on; the user's values as hex strings in the configuration / as names of files."""
+    if len(opt) != 2 or opt[0] not in ("hwk0", "hwk1") or opt[1] not in ("hex", "file"):
+        raise RuntimeError(f"option combination {opt} of an MBI configuration")
+
+    def given(name, value):
+        if opt[1] == "hex":
+            return value.hex()
+        fn = os.path.join(job["dir"], f"mbi_{name}.txt")
+        with open(fn, "w") as f:
+            f.write(value.hex())
+        return fn
+
     path = os.path.join(job["dir"], "mbi_app.bin")
     with open(path, "wb") as f:
         f.write(app_binary(n))
@@ -400,7 +486,7 @@ def _mbi_cfg(n, ex):
         "masterBootOutputFile": os.path.join(job["dir"], "mbi.bin"),
         "inputImageFile": path,
         "outputImageExecutionAddress": 0x80000,
-        "enableHwUserModeKeys": False,
+        "enableHwUserModeKeys": opt[0] == "hwk1",
         "enableTrustZone": False,
         "signPrivateKey": PRIV,
         "imageBuildNumber": 1,
@@ -409,15 +495,15 @@ def _mbi_cfg(n, ex):
         "rootCertificate2File": ROOTS[2],
         "rootCertificate3File": ROOTS[3],
         "mainRootCertId": 0,
-        "outputImageEncryptionKeyFile": USER["mbi_key"].hex(),
+        "outputImageEncryptionKeyFile": given("key", USER["mbi_key"]),
     }
     if "ctr_iv" in ex:
-        cfg["CtrInitVector"] = USER["mbi_ctr_iv"].hex()
+        cfg["CtrInitVector"] = given("ctr_iv", USER["mbi_ctr_iv"])
     return cfg
 
 
 def mbi_config(n, ex, opt):
-    cfg = _mbi_cfg(n, ex)
+    cfg = _mbi_cfg(n, ex, opt)
     cls = get_mbi_class(cfg)
     obj = cls()
     obj.load_from_config(cfg, search_paths=[job["dir"]])
@@ -755,7 +841,7 @@ def hex_export(obj):
 
 
 BUILD = {
-    ("SB20", "ctor"): sb20_ctor, ("SB21", "ctor"): sb21_ctor, ("SB21", "config"): sb21_config,
+    ("SB20", "ctor"): sb20_ctor, ("SB21", "ctor"): sb21_ctor, ("SB21", "config"): sb21_config, ("SB21", "cli"): sb21_cli,
     ("SB21KW", "bd"): sb21kw_bd, ("SB21KW", "config"): sb21kw_config,
     ("MBI", "ctor"): mbi_ctor, ("MBI", "config"): mbi_config,
     ("OTFAD", "ctor"): otfad_ctor,
